@@ -40,7 +40,10 @@ RULE = ("L1 (differential CLI runs): regenerable scenarios (kind, seed) -> input
         "--linked-read-distance-cutoff, --gap-threshold, --cut-poly, -B/--min-overlap, --only-snvs, --only-largest-block); "
         "every second diploid scenario of the thorough tier has deep noisy reads. 'polyploid': tri/tetraploid samples, several read islands, "
         "polyphase --threads 1..4 and 8 (plain, -B/--min-overlap, --use-prephasing --include-haploid-sets --sample), haplotag "
-        "--ploidy, compare --ploidy, stats on the polyploid truth phasing. 'misc': find_snv_candidates (3 option sets), hapcut2vcf, "
+        "--ploidy, compare --ploidy, stats on the polyploid truth phasing. 'input-forms': 4-8 short chromosomes, every VCF-reading subcommand (stats, compare, phase, genotype, polyphase, unphase, "
+        "haplotag, haplotagphase) on plain / bgzip+tbi / bgzip+csi VCFs, BAM and CRAM alignments (and CRAM output), VCF on "
+        "stdin, vcf.gz outputs, with multi-name --chromosome / --regions selections sorted, reversed, shuffled and with a "
+        "repeated name. 'misc': find_snv_candidates (3 option sets), hapcut2vcf, "
         "polyphasegenetic (tetraploid cross, 3 option sets). The diploid scenario has 1-3 read groups per sample (shuffled "
         "header), unmapped / secondary / duplicate / supplementary alignments, optionally a second family, the alignments also "
         "split over two BAM files, and option-walking jobs (sample and chromosome subsets in any order, --ignore-read-groups, "
@@ -124,12 +127,29 @@ def job_configs(job, n_extra=0, short=False):
     return cfgs
 
 
+def run_cli_stdin(ctx, args, cwd, hashseed, stdin_path, timeout=900):
+    """util.run_cli with a file on standard input (same environment)"""
+    import subprocess
+    env = dict(os.environ)
+    env["PYTHONPATH"] = ctx.impl
+    env["PYTHONHASHSEED"] = str(hashseed)
+    env["PYTHONDONTWRITEBYTECODE"] = "1"
+    env.pop("WHATSHAP_VERIF_TRACE", None)
+    with open(stdin_path, "rb") as fh:
+        r = subprocess.run([util.PY, "-m", "whatshap"] + [str(a) for a in args], cwd=cwd, env=env, stdin=fh,
+                           stdout=subprocess.PIPE, stderr=subprocess.PIPE, timeout=timeout)
+    return r.returncode, r.stdout.decode("utf-8", "replace"), r.stderr.decode("utf-8", "replace")
+
+
 def run_one(ctx, job, cfg, outdir):
     """returns (rc, {label: canonical record list or None})"""
     import time
     os.makedirs(outdir, exist_ok=True)
     t0 = time.time()
-    rc, so, se = util.run_cli(ctx, job.argv(outdir, cfg), cwd=outdir, hashseed=cfg["hashseed"], timeout=900)
+    if job.stdin:
+        rc, so, se = run_cli_stdin(ctx, job.argv(outdir, cfg), outdir, cfg["hashseed"], job.stdin)
+    else:
+        rc, so, se = util.run_cli(ctx, job.argv(outdir, cfg), cwd=outdir, hashseed=cfg["hashseed"], timeout=900)
     SLOW.append((round(time.time() - t0, 1), job.name, str(cfg)))
     outs = {}
     for lab, (rel, kind) in job.outputs.items():
@@ -174,6 +194,9 @@ def tally_job(ctx, label, job, cfgs):
     for a in argv[1:]:
         if a.startswith("-") and not a[1:2].isdigit():
             ctx.tally(f"{label}.option.{job.sub}.{a}")
+    for k in ("form", "nchrom_selected", "nregions"):
+        if k in job.feat:
+            ctx.tally(f"{label}.{k}.{job.sub}.{job.feat[k]}")
     for k in ("nsamples", "nchrom", "families", "singletons", "rg_per_sample_max", "input_files", "out_ext", "ploidy",
               "islands", "family", "max_coverage"):
         if k in job.feat:
@@ -243,8 +266,8 @@ def signature(job, label, kind, diff, dim, a, b):
     if job.sub == "phase" and label == "changed-genotype-list" and diff == "record-order" and dim == "hashseed" \
             and f.get("use_ped_samples"):
         return "phase:use-ped-samples-set-order"
-    if job.sub == "split":
-        label = "outputs"       # h1 / h2 / untagged / histogram are facets of one partition of the reads
+    if job.sub in ("split", "stats"):
+        label = "outputs"       # h1/h2/untagged/histogram resp. tsv/block-list/gtf are facets of one result
     return f"{job.sub}:{label}:{diff}:{dim}"
 
 
@@ -256,6 +279,8 @@ def scenario_plan(ctx, rng):
         ex = 4 if k == 0 else rng.choice([0, 1, 2, 3, 4])     # >= 3: second family; 4: plus an unrelated singleton
         plan.append(("diploid", rng.randrange(10 ** 9), {"extra_samples": ex, "second_trio": ex >= 3,
                                                           "nchrom": rng.choice([2, 2, 3]), "deep": k % 2 == 1}))
+    for k in range(ctx.n(1, 3)):
+        plan.append(("input-forms", rng.randrange(10 ** 9), {"nchrom": 6 if k == 0 else rng.choice([4, 6, 8])}))
     for k in range(ctx.n(1, 4)):
         plan.append(("misc", rng.randrange(10 ** 9), {"pg_vars": rng.choice([18, 24, 30]), "pg_progeny": rng.choice([8, 12, 16])}))
     for k in range(ctx.n(1, 6)):
